@@ -13,19 +13,28 @@ def pick(pairs, tier, seed):
     rnd.shuffle(stuck)
     if tier == "quick":
         rnd.shuffle(ret)
-        ret = ret[:9000]
+        # the focused family (names m1/m2) is small: keep a fixed share of it
+        def focused(p):
+            return p["prog"]["n"] == 4 and any(op["n"] in ("m1", "m2") for sc in p["prog"]["ss"] for op in sc)
+
+        def two_waiters(p):     # two children wait for different names, the third publishes both
+            ss = p["prog"]["ss"]
+            return sum(1 for sc in ss if len(sc) == 1 and sc[0]["k"] == "get") == 2 and sum(1 for sc in ss if len(sc) == 2 and all(o["k"] == "add" for o in sc)) == 1
+        foc = [p for p in ret if focused(p)]
+        ret = [p for p in ret if not focused(p)][:8000] + [p for p in foc if two_waiters(p)] + [p for p in foc if not two_waiters(p)][:1500]
     return ret + stuck[:1500 if tier == "quick" else 20000]
 
 
 def run(tier, seed):
     cfg = open(tlc.SPECS / "MC_Startup_C05.cfg").read()
-    cfgs = [("C05 family, 3 components", cfg)]
+    cfgs = [("C05 family, 3 components", cfg),
+            ("C05 focused family: flat tree, up to 3 children, two waiters for different names and a publisher of both", open(tlc.SPECS / "MC_Startup_C05c.cfg").read())]
     live = tlc.run("MC_Startup", "MC_Startup_live", workers=8, heap="8g", timeout=1800, check=False)
     if live.error or live.property_violated:
         raise core.MachineryError(f"Startup.tla liveness: {live.error or 'Finishes violated'}")
     rep = startup.family_check(PROP, tier, seed, cfgs, "Trace_C05", {"prepare", "start-after-descendants", "returned", "q", "visible", "torn-down"}, pick,
                                 "all trees of <= 3 components x with/without prepare()/start() x scripts of <= 1 step per phase over {publish A, publish B, wait for A, wait for B} "
-                                "x every order of releasing the gates, enumerated by TLC; quick executes a seeded sample of the completing pairs and of the pairs that must get "
+                                "x every order of releasing the gates, enumerated by TLC; plus flat trees of up to 3 children with scripts of <= 2 steps over {wait m1, wait m2, publish m1, publish m2};  quick executes a seeded sample of the completing pairs and of the pairs that must get "
                                 "stuck (cyclic or unsatisfiable waits), thorough all completing pairs; each on asyncio and trio, a third also with bursts; "
                                 "non-trivial = schedules of at least two releases; distinct by (program, schedule)",
                                 ["whether a program can complete (acyclic dependencies) is taken from the specification's own verdict for that program"])
